@@ -491,6 +491,15 @@ CAMPAIGNS['C02'].append(camp(
     'c02-overlap-crash', 'C02', OVERLAP, OVERLAP_RULE, mode='crash-sweep',
     nontrivial=nt_rollback_restored, chunk=6,
     sweep_max={'quick': 12, 'thorough': None}, follow=1))
+CAMPAIGNS['C10'].append(camp(
+    'c10-long-names', 'C10',
+    dict(FAILURE_HEAVY, names=['a', 'b', 'L' * 300, 'c'], p_catch=0.95,
+         n_paths=(3, 6), w_probe=6, p_chain=0.3,
+         query_kinds=['exists', 'is_file', 'is_dir', 'list_dir', 'walk',
+                      'get_size']),
+    'targets and ancestors with a component longer than 255 bytes: the '
+    'kernel itself makes mkdir / open fail (no injection), at every level',
+    post='tag_all:C10'))
 CAMPAIGNS['C10'].append(camp('c10-overlap', 'C10', OVERLAP, OVERLAP_RULE,
                              post='tag_all:C10'))
 CAMPAIGNS['C04'].append(camp('c04-overlap', 'C04', OVERLAP, OVERLAP_RULE))
@@ -563,7 +572,15 @@ def apply_post(sc, post):
 
 
 def run_case(camp, seed, tier='quick', prop=None):
-    sc = gen.generate(camp['profile'], seed, camp.get('params'))
+    params = camp.get('params')
+    if tier == 'thorough' and seed % 2 and isinstance(params, dict) and \
+            camp['profile'] not in ('threads', 'stragglers', 'wide'):
+        # deeper bounds for every second case of the thorough tier
+        lo, hi = params.get('n_steps', gen.DEFAULT['n_steps'])
+        plo, phi = params.get('n_paths', gen.DEFAULT['n_paths'])
+        params = dict(params, n_steps=(lo + 1, hi + 4),
+                      n_paths=(plo, phi + 3))
+    sc = gen.generate(camp['profile'], seed, params)
     post = camp.get('post')
     if post is not None:
         sc = apply_post(sc, post)
